@@ -119,9 +119,15 @@ def forbidden_scan(ctx):
             if f.endswith('.v'):
                 p = os.path.join(dp, f)
                 txt = strip_coq_comments(open(p).read())
+                depth = 0
                 for i, line in enumerate(txt.split('\n')):
                     if re.search(FORBIDDEN, line):
                         hits.append(f'{os.path.relpath(p, COQ)}:{i+1}: {line.strip()[:100]}')
+                    # a Variable / Hypothesis / Context outside a Section declares an axiom
+                    if re.match(r'\s*(Section|Module Type)\b', line): depth += 1
+                    elif re.match(r'\s*End\s+\w+\s*\.', line) and depth > 0: depth -= 1
+                    elif depth == 0 and re.match(r'\s*(Variables?|Hypothes[ie]s|Context)\b', line):
+                        hits.append(f'{os.path.relpath(p, COQ)}:{i+1}: outside a Section: {line.strip()[:100]}')
     ctx.ob('hygiene', 'no Admitted/admit/Axiom/Parameter/Conjecture/guard switches anywhere in coq/', not hits, '\n'.join(hits[:20]))
     return not hits
 
